@@ -353,3 +353,28 @@ m('M30e', 'C11', 'C11.stop', 'thread_pool.h',
             else {
                 t.join();
             }""", """            t.join();""", 'self join')
+m('M31', 'C12', 'C12.cancel', 'scheduler.h',
+  """        auto p = remove(id);
+        if (p) {
+            return {p(e), true};""", """        std::lock_guard _(_mx);
+        auto p = promise();
+        for (auto &x: _scheduled) if (x._ident == id && x._p) {p = std::move(x._p);break;}
+        if (p) {
+            return {p(e), true};""", 'cancel resolves under the lock')
+m('M31b', 'C12', 'C12.nonempty', 'scheduler.h',
+  "        while (!_scheduled.empty() && _scheduled[0]._ident == id) {", "        while (_scheduled[0]._ident == id) {", 'revert of the remove() fix')
+m('M31c', 'C12', 'C12.', 'scheduler.h',
+  """        std::stop_callback stpc(token,[&]{
+            this->cancel(&tag);""", """        std::stop_callback stpc(token,[&]{
+            std::lock_guard _(_mx);
+            this->cancel(&tag);""", 'revert of the interval fix')
+m('M31d', 'C12', 'C12.schedule-wakes-worker', 'scheduler.h',
+  """          if (ntf) {
+              _cond.notify_all();
+          }""", """          (void)ntf;""", 'schedule never notifies')
+m('M31e', 'C12', 'C12.never-early', 'scheduler.h',
+  "        while (!_scheduled.empty() && (_scheduled[0]._tp <= now || !_scheduled[0]._p)) {", "        while (!_scheduled.empty() && (_scheduled[0]._tp >= now || !_scheduled[0]._p)) {", 'due test inverted')
+m('M31f', 'C12', 'C12.heap-discipline', 'scheduler.h',
+  "        return a._tp > b._tp;", "        return a._tp < b._tp;", 'max-heap instead of min-heap')
+m('M31g', 'C12', 'C12.interval-cancel', 'scheduler.h',
+  "                waiter << [&]{return this->sleep_until(next, &tag);};", "                waiter << [&]{return this->sleep_until(next, &counter);};", 'sleep under another identifier')
